@@ -47,7 +47,7 @@ CORRECTIONS = ("gc", "edge", "rmask")
 # genome A: (name, target bins, antitarget bins, target chromosome offset, antitarget chromosome offset)
 GENOME_A = (("1", 30, 12, 0.30, -0.15), ("2", 18, 9, -0.10, 0.25), ("3", 12, 7, 0.05, 0.05), ("X", 45, 40, 0.05, 0.05), ("Y", 8, 4, 0.05, 0.05))
 # genome B: (name, target bins, antitarget bins); sex share 50/500 targets, 44/434 antitargets
-GENOME_B = (("1", 150, 130), ("2", 150, 130), ("3", 150, 130), ("X", 45, 40), ("Y", 5, 4))
+GENOME_B = (("1", 150, 130), ("2", 150, 130), ("3", 150, 130), ("X", 40, 40), ("Y", 10, 4))
 COHORTS_B = {"FF": (0, 0), "MM": (1, 1), "FM": (0, 1), "FFM": (0, 0, 1), "FF-depth": (0, 0), "MM-depth": (1, 1), "MFM": (1, 0, 1)}
 
 GC_ALPHABET_Q = "AcGtNn"
@@ -90,7 +90,7 @@ def describe(tier):
             },
             "genome_A": "chr1 30 / chr2 18 / chr3 12 / chrX 45 / chrY 8 target bins; 12 / 9 / 7 / 40 / 4 antitarget bins",
             "reject": "k = 2, 3" + (", 4" if t else "") + " x every file position x 5 kinds x {target, antitarget} block",
-            "corrected": "genome B (chr1-3 150 target + 130 antitarget bins each, chrX 45 + 40, chrY 5 + 4), cohorts "
+            "corrected": "genome B (chr1-3 150 target + 130 antitarget bins each, chrX 40 + 40, chrY 10 + 4), cohorts "
             + ", ".join(COHORTS_B if t else [c for c in COHORTS_B if c != "MFM"])
             + " x antitarget {none, present} x reference sex x 8 correction subsets, noise sd 0.02",
             "flat": "naming x reference sex x chromosome sets {auto+X+Y, auto+X, auto, X+Y first} x antitarget {none, present, empty} x FASTA {no, yes}",
@@ -266,13 +266,16 @@ def normal_quantiles(n):
 
 
 def noise_for(n, i):
-    """Sample i's unit noise over n bins: the n normal quantiles under j -> (a j + b) mod n."""
-    a, found = 6, -1
-    while found < i:
-        a += 1
+    """Sample i's unit noise over n bins: the n normal quantiles under j -> (a j + b) mod n, with a near n / golden
+    ratio (so that every run of neighbouring bins receives quantiles spread over the whole range) and coprime to n."""
+    a, found = int(0.618 * n), -1
+    while True:
         if math.gcd(a, n) == 1:
             found += 1
-    b = (5 * i + 3) % n
+            if found == i:
+                break
+        a += 1
+    b = (37 * i + 11) % n
     z = normal_quantiles(n)
     return [z[(a * j + b) % n] for j in range(n)]
 
@@ -460,6 +463,8 @@ def judge_sex_levels(ctx, tab, ref_male, kp, sub, tol=SEM_TOL):
             continue
         got = med - auto
         ctx.stratum(f"sex-levels: chr{role} judged")
+        dev = abs(got - want)
+        ctx.stratum("sex-levels: deviation " + ("< 0.005" if dev < 0.005 else "< 0.0125" if dev < 0.0125 else "< 0.025" if dev < 0.025 else ">= 0.025 (tolerance 0.05)"))
         if not abs(got - want) <= tol:
             ctx.violation(
                 f"chr{role} lies at {'-1.0 (male reference) / 0 (female reference)' if role == 'X' else 'the single-copy level -1.0'} relative to the autosomal baseline",
